@@ -1,7 +1,6 @@
 (* C10 — modules expose exactly their public names and initialise once, in order.
    Only statements + `exact` of lemmas proved in Mod/*Proofs.v / Mod/C10Top.v, each followed by Print Assumptions.
-   `_partial`: holds under the stated hypothesis (every import statement is a top-level statement of its module);
-   `_refuted`: the full statement is false of the faithful model (nested import statements, see KNOWN_FINDINGS). *)
+   All statements are full. *)
 From Coq Require Import List NArith Bool Relations.
 Import ListNotations.
 From DDP Require Import Mod.Loader Mod.LoaderProofs Mod.InitOrder Mod.InitProofs Mod.VisibleProofs Mod.Mangle Mod.MangleProofs Mod.C10Top.
@@ -86,54 +85,37 @@ Theorem C10_invisible_use_refused : forall fs p inst res ld line n k s,
 Proof. exact invisible_use_refused. Qed.
 Print Assumptions C10_invisible_use_refused.
 
-(* ---- initialisation ---- *)
-Theorem C10_init_once_partial : forall fs root tr,
-  wf_fs fs -> outcome fs root = Some tr -> NoDup (einits tr).
-Proof. exact init_once_partial. Qed.
-Print Assumptions C10_init_once_partial.
+(* ---- initialisation (for every program: import statements nested in loops, branches and function bodies included) ---- *)
+Theorem C10_init_once : forall fs root tr, outcome fs root = Some tr -> NoDup (einits tr).
+Proof. exact init_once_full. Qed.
+Print Assumptions C10_init_once.
 
-Theorem C10_init_covers_partial : forall fs root tr,
-  wf_fs fs -> outcome fs root = Some tr -> forall q,
+Theorem C10_init_covers : forall fs root tr,
+  outcome fs root = Some tr -> forall q,
   In (EInit q) tr <-> exists m, In m (main_targets fs root) /\ reach (graph fs root) m q.
-Proof. exact init_covers_partial. Qed.
-Print Assumptions C10_init_covers_partial.
+Proof. exact init_covers_full. Qed.
+Print Assumptions C10_init_covers.
 
-Theorem C10_init_deps_first_partial : forall fs root tr,
-  wf_fs fs -> outcome fs root = Some tr -> forall l1 q l2 q',
+Theorem C10_init_deps_first : forall fs root tr,
+  outcome fs root = Some tr -> forall l1 q l2 q',
   tr = l1 ++ EInit q :: l2 -> In q' (graph fs root q) -> In (EInit q') l1.
-Proof. exact init_deps_first_partial. Qed.
-Print Assumptions C10_init_deps_first_partial.
+Proof. exact init_deps_first_full. Qed.
+Print Assumptions C10_init_deps_first.
 
-Theorem C10_init_before_following_code_partial : forall fs root tr,
-  wf_fs fs -> outcome fs root = Some tr -> forall s1 i s2,
+Theorem C10_init_before_following_code : forall fs root tr,
+  outcome fs root = Some tr -> forall s1 i s2,
   src_of fs root = s1 ++ SImport i :: s2 ->
   (exists tr2, tr = prefix_trace fs root (s1 ++ [SImport i]) ++ tr2) /\
   forall m x, In m (match lookup (i_line i) (main_res fs root) with Some ms => ms | None => [] end) ->
               reach (graph fs root) m x -> In (EInit x) (prefix_trace fs root (s1 ++ [SImport i])).
-Proof. exact init_before_following_code_partial. Qed.
-Print Assumptions C10_init_before_following_code_partial.
+Proof. exact init_before_following_code_full. Qed.
+Print Assumptions C10_init_before_following_code.
 
 (* imported modules compile declarations only: no top-level code is emitted for them *)
-Theorem C10_no_toplevel_code_of_imports : forall fs root q ext rs c,
-  snd (compile_stmts (graph fs root) (dfs_fuel fs root) q ext false false rs c) = [].
+Theorem C10_no_toplevel_code_of_imports : forall fs root q rs,
+  snd (compile_module (graph fs root) (dfs_fuel fs root) q false (fun _ _ => []) rs) = [].
 Proof. exact no_toplevel_code_of_imports. Qed.
 Print Assumptions C10_no_toplevel_code_of_imports.
-
-(* the full statements are false when an import statement is nested in a loop, a branch or a function body *)
-Theorem C10_init_once_refuted :
-  exists fs root tr q, outcome fs root = Some tr /\ einits tr = [q; q; q].
-Proof. exact init_once_refuted. Qed.
-Print Assumptions C10_init_once_refuted.
-
-Theorem C10_init_never_refuted :
-  exists fs root tr q n, outcome fs root = Some tr /\ In q (main_targets fs root) /\ In (EVal q n false) tr /\ einits tr = [].
-Proof. exact init_never_refuted. Qed.
-Print Assumptions C10_init_never_refuted.
-
-Theorem C10_init_in_function_body_refuted :
-  exists fs root tr q, outcome fs root = Some tr /\ einits tr = [q; 3%N; q; q].
-Proof. exact init_in_function_body_refuted. Qed.
-Print Assumptions C10_init_in_function_body_refuted.
 
 (* ---- symbol names ---- *)
 (* the flattening of module paths to symbol names is injective ... *)
